@@ -17,7 +17,6 @@ import (
 	"strconv"
 	"strings"
 	"sync"
-	"sync/atomic"
 
 	"github.com/machship/mpath"
 )
@@ -30,6 +29,9 @@ type raceItem struct {
 	schema string
 	cp     string
 	want   string
+	lazy   bool  // validate: no sequential warm-up; the answers of the concurrent phase are compared afterwards
+	datas  []any // eval-variants: one shared operation, several documents
+	wants  []string
 }
 
 func raceCorpus(r *rng, n int) []raceItem {
@@ -56,6 +58,34 @@ func raceCorpus(r *rng, n int) []raceItem {
 			items = append(items, raceItem{kind: "parse", q: q, want: op.Sprint(0) + "|" + mpathUserString(op)})
 		}
 	}
+	// one shared operation on records of DIFFERENT struct types that hold the key at different positions (and on maps)
+	for _, q := range []string{"$.k", "$.K.Add(1)", "$.xs.k", "$.xs[@.k.Greater(1)].k", "$.o.k?.IsNull()"} {
+		op, err := mpath.ParseString(q)
+		if err != nil || op == nil {
+			continue
+		}
+		rec := func(fields ...[3]any) *TV { return tvStruct(fields) }
+		k := func(v float64) [3]any { return [3]any{"K", 1, tvF64(v)} }
+		a := [3]any{"A", 1, tvStr("a")}
+		b := [3]any{"B", 1, tvBool(true)}
+		variants := []*TV{
+			rec(k(1), a, b), rec(a, k(2), b), rec(a, b, k(3)), rec(b, k(4)), tvMap("str", [][2]any{{hx("k"), tvF64(5)}, {hx("a"), tvStr("a")}}),
+		}
+		var docs []*TV
+		for i, v := range variants {
+			w := variants[(i+1)%len(variants)]
+			docs = append(docs, tvMap("str", [][2]any{{hx("k"), tvF64(float64(10 + i))}, {hx("K2"), tvF64(0)}, {hx("xs"), tvSlice(1, v, w, v)}, {hx("o"), v}}))
+			docs = append(docs, tvStruct([][3]any{{"Xs", 1, tvSlice(1, w, v)}, {"O", 1, w}, {"K", 1, tvF64(float64(20 + i))}}))
+			docs = append(docs, tvStruct([][3]any{{"K", 1, tvF64(float64(30 + i))}, {"O", 1, v}, {"Xs", 1, tvSlice(1, v, v, w)}}))
+		}
+		it := raceItem{kind: "eval-variants", q: q, op: op}
+		for _, d := range docs {
+			data := buildAny(d)
+			it.datas = append(it.datas, data)
+			it.wants = append(it.wants, runCase(q, data).Line())
+		}
+		items = append(items, it)
+	}
 	// validation items: few schemas (repeated cache keys) and many queries, plus distinct schemas
 	for len(items) < n {
 		g := &cueGen{r: r}
@@ -63,15 +93,58 @@ func raceCorpus(r *rng, n int) []raceItem {
 		txt := cueSchemaText(g, root)
 		var ps [][]string
 		cueDeclaredPaths(root, nil, &ps, 0)
-		for k := 0; k < 6 && len(ps) > 0; k++ {
+		for k := 0; k < 14 && len(ps) > 0; k++ {
 			p := ps[r.Intn(len(ps))]
 			cp := ""
 			if r.Intn(2) == 0 {
 				cp = steps[r.Intn(len(steps))]
 			}
 			q := "$." + strings.Join(p, ".")
+			if k >= 2 {
+				// not warmed up: the first validation of this part of the (already compiled) schema happens concurrently
+				items = append(items, raceItem{kind: "validate", q: q, schema: txt, cp: cp, lazy: true})
+				continue
+			}
 			o := cueValidateOnce(q, txt, cp)
 			items = append(items, raceItem{kind: "validate", q: q, schema: txt, cp: cp, want: o.canonLoose()})
+		}
+	}
+	// schemas rich in parts that cue initialises lazily (optional structs, list-element structs, pattern constraints,
+	// open structs): one query warms the cache entry up, the others meet the shared value for the first time in parallel
+	for i := 0; len(items) < n+160 && i < 40; i++ {
+		txt := fmt.Sprintf(`
+input: {
+	name: string
+	_dependencies: []
+}
+opt%d?: {
+	result?: {
+		a: int
+		b: string
+		c: {d: int, e?: {f: string}}
+		[string]: _
+	}
+	_dependencies: []
+}
+list: {
+	result: [...{
+		name?: string
+		age!: int
+		more: {x: int, y?: {z: bool}}
+		...
+	}]
+	_dependencies: ["input"]
+}
+`, i)
+		o := fmt.Sprintf("opt%d", i)
+		qs := [][2]string{{"$.input.name", ""}, {"$." + o + ".result.c.d", ""}, {"$." + o + ".result.c.e.f", ""}, {"$." + o + ".result.zzz", ""}, {"$.list.result.more.y.z", ""},
+			{"$.list.result[@.age.Greater(1)].more.x", ""}, {"$.list.result.First().more.y", ""}, {"$.list.result.First().qqq", ""}, {"$." + o + ".result.b", "list"}}
+		for k, qc := range qs {
+			if k == 0 {
+				items = append(items, raceItem{kind: "validate", q: qc[0], schema: txt, cp: qc[1], want: cueValidateOnce(qc[0], txt, qc[1]).canonLoose()})
+				continue
+			}
+			items = append(items, raceItem{kind: "validate", q: qc[0], schema: txt, cp: qc[1], lazy: true})
 		}
 	}
 	return items
@@ -93,17 +166,23 @@ func init() {
 		os.MkdirAll(dir, 0o755)
 		quietStderrUnlessRace()
 		r := newRng(seed)
-		nItems, rounds := 240, 12
+		nItems, rounds := 400, 12
 		if tier == "thorough" {
 			nItems, rounds = 900, 60
 		}
 		items := raceCorpus(r, nItems)
 		type mism struct{ Kind, Q, CP, Want, Got string }
-		var mu sync.Mutex
 		var mismatches []mism
 		var calls int64
+		lazyGot := map[int][]string{}
 		hist := map[string]int{}
-		goroutineCounts := []int{2, 3, 4, 8, 16, 32}
+		goroutineCounts := []int{32, 16, 8, 4, 3, 2}
+		lazyByRound := make([][]int, rounds)
+		for i, it := range items {
+			if it.lazy {
+				lazyByRound[i%rounds] = append(lazyByRound[i%rounds], i)
+			}
+		}
 		for round := 0; round < rounds; round++ {
 			g := goroutineCounts[round%len(goroutineCounts)]
 			perG := 60
@@ -113,6 +192,11 @@ func init() {
 			}
 			var wg sync.WaitGroup
 			start := make(chan struct{})
+			// results are kept per goroutine and merged after the round: a mutex or an atomic counter inside the loop
+			// would order the goroutines' memory accesses and hide races from the detector
+			localMism := make([][]mism, g)
+			localLazy := make([]map[int][]string, g)
+			localCalls := make([]int64, g)
 			for gi := 0; gi < g; gi++ {
 				wg.Add(1)
 				go func(gi int) {
@@ -120,7 +204,11 @@ func init() {
 					lr := newRng(seeds[gi])
 					<-start
 					for k := 0; k < perG; k++ {
-						it := items[lr.Intn(len(items))]
+						itIdx := lr.Intn(len(items))
+						if ls := lazyByRound[round]; len(ls) > 0 && k < 24 {
+							itIdx = ls[lr.Intn(len(ls))] // every goroutine starts the round on the not-yet-validated items
+						}
+						it := items[itIdx]
 						if lr.Intn(3) == 0 {
 							runtime.Gosched()
 						}
@@ -135,7 +223,23 @@ func init() {
 							}
 						case "eval":
 							got = evalShared(it.op, it.data)
+						case "eval-variants":
+							vi := lr.Intn(len(it.datas))
+							got = evalShared(it.op, it.datas[vi])
+							it.want = it.wants[vi]
 						case "validate":
+							if it.lazy && itIdx%rounds != round {
+								continue // every round has its own share of not-yet-validated items: first touches happen in parallel
+							}
+							if it.lazy {
+								got = cueValidateOnce(it.q, it.schema, it.cp).canonLoose()
+								if localLazy[gi] == nil {
+									localLazy[gi] = map[int][]string{}
+								}
+								localLazy[gi][itIdx] = append(localLazy[gi][itIdx], got)
+								localCalls[gi]++
+								continue
+							}
 							switch lr.Intn(3) {
 							case 0: // the same key as in the sequential run: a cache hit
 								got = cueValidateOnce(it.q, it.schema, it.cp).canonLoose()
@@ -145,18 +249,35 @@ func init() {
 								got = cueValidateOnce(it.q, it.schema+fmt.Sprintf("\n// %d\n", lr.next()), it.cp).canonLoose()
 							}
 						}
-						atomic.AddInt64(&calls, 1)
+						localCalls[gi]++
 						if got != it.want {
-							mu.Lock()
-							mismatches = append(mismatches, mism{it.kind, it.q, it.cp, trunc(it.want, 300), trunc(got, 300)})
-							mu.Unlock()
+							localMism[gi] = append(localMism[gi], mism{it.kind, it.q, it.cp, trunc(it.want, 300), trunc(got, 300)})
 						}
 					}
 				}(gi)
 			}
 			close(start)
 			wg.Wait()
+			for gi := 0; gi < g; gi++ {
+				mismatches = append(mismatches, localMism[gi]...)
+				calls += localCalls[gi]
+				for k, v := range localLazy[gi] {
+					lazyGot[k] = append(lazyGot[k], v...)
+				}
+			}
 			hist[fmt.Sprintf("round/%d-goroutines", g)] += g * perG
+		}
+		// the lazily validated items: every concurrent answer must equal the answer of the same call run alone afterwards
+		// (on a re-spelled schema, i.e. from a fresh cache entry)
+		for idx, gots := range lazyGot {
+			it := items[idx]
+			want := cueValidateOnce(it.q, it.schema+"\n// after\n", it.cp).canonLoose()
+			for _, g := range gots {
+				if g != want {
+					mismatches = append(mismatches, mism{"validate-lazy", it.q, it.cp, trunc(want, 300), trunc(g, 300)})
+					break
+				}
+			}
 		}
 		kinds := map[string]int{}
 		for _, it := range items {
